@@ -158,7 +158,7 @@ func init() {
 						{"neg", "-(" + es.src + ")"}, {"pos", "+(" + es.src + ")"},
 						{"is.System", es.src + " is Integer"}, {"is.FHIR", es.src + " is Patient"}, {"is.qualified", es.src + " is System.String"},
 						{"as.System", es.src + " as Integer"}, {"as.FHIR", es.src + " as HumanName"}, {"as.qualified", es.src + " as FHIR.string"},
-						{"index.base", "(" + es.src + ")[0]"}, {"index.arg", "Patient.name[" + es.src + "]"}, {"index.both", "(" + es.src + ")[" + es.src + "]"},
+						{"index.base", "(" + es.src + ")[0]"}, {"index.base.max", "(" + es.src + ")[2147483647]"}, {"index.base.max-1", "(" + es.src + ")[2147483646]"}, {"index.base.computed-max", "(" + es.src + ")[2147483646 + 1]"}, {"index.base.1", "(" + es.src + ")[1]"}, {"index.base.neg", "(" + es.src + ")[-1]"}, {"index.base.min", "(" + es.src + ")[-2147483647 - 1]"}, {"index.arg", "Patient.name[" + es.src + "]"}, {"index.both", "(" + es.src + ")[" + es.src + "]"},
 						{"path", "(" + es.src + ").id"}, {"paren", "(" + es.src + ")"},
 					}
 					for _, p := range progs {
